@@ -11,7 +11,7 @@ import z3
 CVC5 = "/usr/bin/cvc5"
 
 
-def _model_to_dict(m):
+def _raw_model(m):
     out = {}
     for d in m.decls():
         try:
@@ -25,8 +25,25 @@ def _model_to_dict(m):
     return out
 
 
-def check_sat(assertions, timeout_ms, want_model=True, use_cvc5=True):
+def _witness_dict(m, witnesses):
+    from .core import pyval
+
+    out = {}
+    for k, v in witnesses.items():
+        try:
+            out[k] = pyval(m, v)
+        except Exception as e:
+            out[k] = f"<unevaluable: {e}>"
+    out["__raw__"] = _raw_model(m)
+    return out
+
+
+def check_sat(assertions, timeout_ms, want_model=True, use_cvc5=True, witnesses=None):
     """returns (verdict, backend, seconds, model_dict_or_None, reason)"""
+    if witnesses is not None:
+        _model_to_dict = lambda m: _witness_dict(m, witnesses)  # noqa: E731
+    else:
+        _model_to_dict = _raw_model
     t0 = time.time()
     s = z3.Solver()
     s.set("timeout", int(timeout_ms))
@@ -85,7 +102,7 @@ def check_sat(assertions, timeout_ms, want_model=True, use_cvc5=True):
 
 def discharge(ob, timeout_ms):
     """validity of pc => goal"""
-    verdict, backend, dt, model, reason = check_sat(list(ob.pc) + [z3.Not(ob.goal)], timeout_ms)
+    verdict, backend, dt, model, reason = check_sat(list(ob.pc) + [z3.Not(ob.goal)], timeout_ms, witnesses=ob.witnesses)
     if verdict == "unsat":
         return "proved", backend, dt, None, ""
     if verdict == "sat":
